@@ -114,3 +114,45 @@ func H_C09_history_collisions() {
 	verifObserve("small", out)
 	verifAssert(out == "package y\n\nimport "+want+" "+specQuote(q)+"\n\n\n"+want+".B", "a File's import names do not depend on the Files rendered before it")
 }
+
+// settings of one File (name hints, aliases, dot-imports, a package prefix) stay with that File:
+// a later File without any setting gets the plain guessed alias for the same path
+func H_C09_history_hints() {
+	canonicalMapOrder()
+	impSummaries()
+	p := leadPath(0)
+	a := NewFile("x")
+	a.NoFormat = true
+	switch nondetChoice("setting", 5) {
+	case 0:
+		h := nondetString("h0")
+		verifAssume(verifMatch(h, reIdent))
+		verifAssume(h != "_")
+		a.ImportAlias(p, h)
+	case 1:
+		h := nondetString("h0")
+		verifAssume(verifMatch(h, reIdent))
+		verifAssume(h != "_")
+		a.ImportName(p, h)
+	case 2:
+		a.ImportAlias(p, ".")
+	case 3:
+		pre := nondetString("prefix")
+		verifAssume(verifMatch(pre, reIdent))
+		a.PackagePrefix = pre
+	case 4:
+		a.Anon(p)
+	}
+	a.Add(Qual(p, "A"))
+	c08fileRaw(a)
+	b := NewFile("y")
+	b.NoFormat = true
+	b.Add(Qual(p, "B"))
+	out, _ := c08fileRaw(b)
+	want := guessAlias(p)
+	if IsReservedWord(want) {
+		want += "1"
+	}
+	verifObserve("second", out)
+	verifAssert(out == "package y\n\nimport "+want+" "+specQuote(p)+"\n\n\n"+want+".B", "a File's import names do not depend on the settings of Files rendered before it")
+}
